@@ -691,6 +691,18 @@ def _execute_once(script, w, G_in, a_in, feats_extra):
                                                                                         "max_count": mc, "modes": modes}, feats)
                     return
                 break
+    # the enumeration the probability vector is built from: every partition of the photon number exactly once, exact cardinalities
+    lib_orbits = [tuple(o) for o in similarity.orbits(photons)] if photons else []
+    all_parts = sorted(tuple(p_) for p_ in parts(photons, photons, photons)) if photons else []
+    if sorted(lib_orbits) != all_parts or len(set(lib_orbits)) != len(lib_orbits) or any(list(o) != sorted(o, reverse=True) for o in lib_orbits):
+        w.violation("exact-counts", "orbits-enumeration", {"photons": photons, "library": lib_orbits[:12], "n_library": len(lib_orbits), "n_exact": len(all_parts)}, feats)
+        return
+    for o in lib_orbits:
+        want_c = card(list(o)) if len(o) <= modes else 0
+        got_c = similarity.orbit_cardinality(list(o), modes)
+        if int(got_c) != want_c:
+            w.violation("exact-counts", "orbit_cardinality", {"orbit": list(o), "modes": modes, "library": int(got_c), "exact": want_c}, feats)
+            return
     ec = similarity.event_cardinality(photons, mc, modes)
     if int(ec) != total:
         w.violation("exact-counts", "event_cardinality", {"library": int(ec), "exact": total, "photons": photons, "max_count": mc, "modes": modes}, feats)
